@@ -1,8 +1,11 @@
 (* C12 -- rows are matched by position, not by container type, index label or row order.
    Only statements, `exact`, Print Assumptions. *)
+From Coq Require Import String.
 From Coq Require Import QArith ZArith List Permutation.
 From FL Require Import Num ListX Containers Containers_proofs.
 From FL Require Import Disagg Disagg_proofs Disagg_ext Disagg_perm.
+From FL Require Import Ingest Ingest_proofs.
+From FLGen Require Gen_ingest.
 Import ListNotations.
 
 (* the ingestion every fairlearn entry point is modelled with: containers that hold the same
@@ -157,3 +160,62 @@ Proof.
   - cbn. apply Permutation_sym. apply (Permutation_cons_app [1; 2; 3]%nat [] 0%nat). apply Permutation_refl.
   - repeat constructor; cbn; intuition discriminate.
 Qed.
+
+(* ---------------------------------------------------------------------------------------------------
+   "Every fairlearn entry point consumes containers by position" as an OBLIGATION on the source.
+   translators/t_ingest.py executes MetricFrame.__init__, load_data of the five parity moments and of ErrorRate,
+   ThresholdOptimizer.fit and InterpolatedThresholder._pmf_predict (with every helper of the anchored files
+   they call) abstractly over the provenance of row data and regenerates Gen_ingest.sites: one row per
+   statement that places caller data into an internal pandas object or re-wraps it (pandas constructor,
+   store into a frame / column dict, conversion to an array, assignment to .index), classified Positional
+   (list / ndarray / np.asarray / .values / check_array / pandas object just built from those with the
+   default index) or Labelled (a pandas object that still carries the caller's index reaches the site).
+   --------------------------------------------------------------------------------------------------- *)
+
+(* the regenerated table is the table the model was written from, and every site in it is positional *)
+Theorem C12_ingestion_sites_positional :
+  Gen_ingest.sites = expected_sites /\ Gen_ingest.entries = expected_entries
+  /\ all_positional Gen_ingest.sites = true.
+Proof. exact (conj eq_refl (conj eq_refl eq_refl)). Qed.
+Print Assumptions C12_ingestion_sites_positional.
+
+(* connection to the model: for every analysed entry point e, whatever it computes downstream of its sites
+   (body, any result type), it reaches at least one site, it computes on Containers.by_position of the
+   containers that reach its sites, and therefore (C12_position_invariance) gives the same result when the
+   same values arrive in other containers / under other index labels.  Stated on the REGENERATED table. *)
+Theorem C12_entry_points_by_position :
+  forall (e : String.string) (R : Type) (body : list (list (option Q)) -> R) (cs cs' : list container),
+    In e Gen_ingest.entries -> same_values cs cs' ->
+    sites_of e Gen_ingest.sites <> []
+    /\ run_entry (sites_of e Gen_ingest.sites) body cs
+       = body (map by_position (firstn (length (sites_of e Gen_ingest.sites)) cs))
+    /\ run_entry (sites_of e Gen_ingest.sites) body cs = run_entry (sites_of e Gen_ingest.sites) body cs'.
+Proof. exact (entry_points_by_position Gen_ingest.sites Gen_ingest.entries eq_refl eq_refl). Qed.
+Print Assumptions C12_entry_points_by_position.
+
+(* the same for any table: all sites positional is what is needed ... *)
+Theorem C12_positional_sites_invariant :
+  forall (R : Type) (t : list site) (body : list (list (option Q)) -> R) (cs cs' : list container),
+    all_positional t = true -> same_values cs cs' -> run_entry t body cs = run_entry t body cs'.
+Proof. exact positional_entry_invariant. Qed.
+Print Assumptions C12_positional_sites_invariant.
+
+(* ... and it is needed: one Labelled site and the entry point sees the caller's index labels *)
+Theorem C12_labelled_site_not_invariant :
+  exists (t : list site) (cs cs' : list container),
+    all_positional t = false /\ same_values cs cs'
+    /\ run_entry t (fun x => x) cs <> run_entry t (fun x => x) cs'.
+Proof. exact labelled_site_not_invariant. Qed.
+Print Assumptions C12_labelled_site_not_invariant.
+
+(* non-vacuity: MetricFrame reaches 7 sites, ThresholdOptimizer.fit 12; a Series with a shuffled index and
+   a list with the same values give the same ingested rows at MetricFrame's first two sites *)
+Example C12_ingest_example :
+  length (sites_of "MetricFrame"%string Gen_ingest.sites) = 7%nat
+  /\ length (sites_of "ThresholdOptimizer.fit"%string Gen_ingest.sites) = 12%nat
+  /\ same_values [CSeries [2; 0; 1]%Z [1#1; 2#1; 3#1]; CFrame1 [5; 5; 5]%Z [0#1; 1#1; 1#1]]
+                 [CList [1#1; 2#1; 3#1]; CArray [0#1; 1#1; 1#1]]
+  /\ run_entry (sites_of "MetricFrame"%string Gen_ingest.sites) (fun x => x)
+               [CSeries [2; 0; 1]%Z [1#1; 2#1; 3#1]; CFrame1 [5; 5; 5]%Z [0#1; 1#1; 1#1]]
+     = [[Some (1#1); Some (2#1); Some (3#1)]; [Some (0#1); Some (1#1); Some (1#1)]].
+Proof. repeat split; try reflexivity. repeat constructor. Qed.
